@@ -76,6 +76,9 @@ impl SimPair {
   pub fn armed(&self) -> (bool, bool) {
     self.w.repair_enabled_guid(self.r.guid())
   }
+  pub fn armed_counts(&self) -> (usize, usize) {
+    self.w.armed_counts_guid(self.r.guid())
+  }
   pub fn repair(&mut self) {
     let g = self.r.guid();
     self.w.repair_guid(g);
